@@ -6,6 +6,9 @@
 #ifndef C20_HAS_IFN_MEMPTR
     #define C20_HAS_IFN_MEMPTR 1 // set by checks/props/c20.py from a compile probe of the tree under test
 #endif
+#ifndef C20_HAS_BF_MEMPTR_RV
+    #define C20_HAS_BF_MEMPTR_RV 1 // likewise: bind_front(pointer to member, object) called through an rvalue wrapper compiles
+#endif
 #ifndef C20_PART
     #define C20_PART 99
 #endif
@@ -1490,21 +1493,36 @@ inline std::string bf_line(Line const& l)
         Sc s;
         s.dm          = md ? static_cast<int>(l.i("v")) : 0;
         Sc const* cps = &s;
+        // (when the rvalue call of such a wrapper does not compile against the tree under test the line reports "nc" instead of
+        // stopping the harness build)
+        constexpr bool rv_ok = !L::is_etl || C20_HAS_BF_MEMPTR_RV;
         if (md) {
-            auto go = [&](auto g) -> long long { return with_cat(q, g, [&](auto&& gg) -> long long { return FWD(gg)(); }); };
+            auto go = [&](auto g) -> long long {
+                if constexpr (rv_ok) return with_cat(q, g, [&](auto&& gg) -> long long { return FWD(gg)(); });
+                else return q == 0 ? g() : std::as_const(g)();
+            };
+            if (!rv_ok && q >= 2) return "nc";
             if (o == "obj") r = go(L::bind_front(&Sc::dm, s));
             else if (o == "ptr") r = go(L::bind_front(&Sc::dm, &s));
             else if (o == "cptr") r = go(L::bind_front(&Sc::dm, cps));
             else if (o == "refw") r = go(L::bind_front(&Sc::dm, L::ref(s)));
             else return "bad-op";
         } else {
-            auto go = [&](auto g) -> long long { return with_cat(q, g, [&](auto&& gg) -> long long { return FWD(gg)(xv); }); };
+            auto go = [&](auto g) -> long long {
+                if constexpr (rv_ok) return with_cat(q, g, [&](auto&& gg) -> long long { return FWD(gg)(xv); });
+                else return q == 0 ? g(xv) : std::as_const(g)(xv);
+            };
+            if (!rv_ok && q >= 2) return "nc";
             if (o == "obj") {
                 switch (q) {
                 case 0: { auto g = L::bind_front(static_cast<pmf_l>(&Sc::q), s); r = g(xv); break; }
                 case 1: { auto const g = L::bind_front(static_cast<pmf_c>(&Sc::q), s); r = g(xv); break; }
-                case 2: { auto g = L::bind_front(static_cast<pmf_r>(&Sc::q), s); r = std::move(g)(xv); break; }
-                default: { auto const g = L::bind_front(static_cast<pmf_k>(&Sc::q), s); r = std::move(g)(xv); break; }
+                default:
+                    if constexpr (rv_ok) {
+                        if (q == 2) { auto g = L::bind_front(static_cast<pmf_r>(&Sc::q), s); r = std::move(g)(xv); }
+                        else { auto const g = L::bind_front(static_cast<pmf_k>(&Sc::q), s); r = std::move(g)(xv); }
+                    }
+                    break;
                 }
             } else if (o == "ptr") r = go(L::bind_front(static_cast<pmf_l>(&Sc::q), &s));
             else if (o == "cptr") r = go(L::bind_front(static_cast<pmf_c>(&Sc::q), cps));
@@ -1991,6 +2009,26 @@ static_assert(std::is_same_v<decltype(etl::tie(std::declval<int&>(), std::declva
 static_assert(std::is_same_v<decltype(etl::make_tuple(std::declval<int&>(), std::declval<Mo>(), std::declval<Co const&>())), etl::tuple<int, Mo, Co>>);
 static_assert(std::is_same_v<decltype(etl::make_pair(std::declval<int const&>(), std::declval<Mo>())), etl::pair<int, Mo>>);
 static_assert(std::is_same_v<decltype(etl::tuple_cat(std::declval<etl::tuple<int, Mo>>(), std::declval<etl::tuple<Co>&>())), etl::tuple<int, Mo, Co>>);
+// get<T> on tuple and pair: the same types as std::get<T>, through the four reference qualifications
+template <typename T, typename ET, typename ST>
+constexpr bool get_t_ok = std::is_same_v<decltype(etl::get<T>(std::declval<ET&>())), decltype(std::get<T>(std::declval<ST&>()))>
+    && std::is_same_v<decltype(etl::get<T>(std::declval<ET const&>())), decltype(std::get<T>(std::declval<ST const&>()))>
+    && std::is_same_v<decltype(etl::get<T>(std::declval<ET&&>())), decltype(std::get<T>(std::declval<ST&&>()))>
+    && std::is_same_v<decltype(etl::get<T>(std::declval<ET const&&>())), decltype(std::get<T>(std::declval<ST const&&>()))>;
+static_assert(get_t_ok<int, etl::tuple<int, long>, std::tuple<int, long>> && get_t_ok<long, etl::tuple<int, long>, std::tuple<int, long>>);
+static_assert(get_t_ok<int&, etl::tuple<int&, Mo>, std::tuple<int&, Mo>> && get_t_ok<Mo, etl::tuple<int&, Mo>, std::tuple<int&, Mo>>);
+static_assert(get_t_ok<int const, etl::tuple<long, int const, Co>, std::tuple<long, int const, Co>> && get_t_ok<int&&, etl::tuple<long, int&&>, std::tuple<long, int&&>>);
+static_assert(get_t_ok<int, etl::pair<int, long>, std::pair<int, long>> && get_t_ok<long, etl::pair<int, long>, std::pair<int, long>>);
+static_assert(get_t_ok<int&, etl::pair<int&, Mo>, std::pair<int&, Mo>> && get_t_ok<Mo, etl::pair<int&, Mo>, std::pair<int&, Mo>>);
+static_assert(get_t_ok<int const, etl::pair<long, int const>, std::pair<long, int const>>);
+// structured bindings: std::tuple_size / std::tuple_element of an etl::tuple
+static_assert(std::tuple_size_v<etl::tuple<int, Mo, int&>> == 3 && std::tuple_size_v<etl::tuple<int> const> == 1);
+static_assert(std::is_same_v<std::tuple_element_t<2, etl::tuple<int, Mo, int&>>, int&> && std::is_same_v<std::tuple_element_t<0, etl::tuple<int, Mo> const>, int const>);
+// ref / cref of a reference_wrapper do not nest
+static_assert(std::is_same_v<decltype(etl::ref(std::declval<etl::reference_wrapper<int>&>())), etl::reference_wrapper<int>>);
+static_assert(std::is_same_v<decltype(etl::cref(std::declval<etl::reference_wrapper<int>&>())), etl::reference_wrapper<int const>>);
+// the free swap of tuples is the member swap
+static_assert(noexcept(swap(std::declval<etl::tuple<int, long>&>(), std::declval<etl::tuple<int, long>&>())));
 } // namespace matrix
 
 #endif
